@@ -95,7 +95,10 @@ def scalar_mul_bounded(tier, seed):
         for P in base[:2]:
             for Q in qs + [P, EC.neg(P, p)]:
                 for (order, gen, z, z2) in ((n, False, 1, 1), (None, False, 2, 3), (n, True, 1, 1), (n, True, 1, 2)):
-                    for aa, bb in itertools.product(list(range(-2, n + 3)), [0, 1, 2, n - 1, n, n + 1, -1, 7]):
+                    # multipliers far beyond the order too (several times what a precomputed table covers: seed C19/3)
+                    far = [2 * n, 4 * n + 1, 7 * n + 3, 16 * n + 5, 2 ** (n.bit_length() + 5) + 1, -(13 * n + 3), 33 * n - 1]
+                    for aa, bb in itertools.chain(itertools.product(list(range(-2, n + 3)), [0, 1, 2, n - 1, n, n + 1, -1, 7]),
+                                                  itertools.product(far, [1, 2, 6 * n + 1]), itertools.product([1, 3], far)):
                         pa = _mk(ecm, cur, P, order, gen, z)
                         qb = _mk(ecm, cur, Q, order, gen and z2 == 1, z2)
                         exp = EC.add(EC.mul(aa, P, p, a), EC.mul(bb, Q, p, a), p, a)
